@@ -40,6 +40,37 @@ EXTRA = {"C10": {"quick": TIME_QUICK, "thorough": TIME_THOROUGH},
 PLAN["C01"] = {"quick": FLOW_QUICK + CODEC, "thorough": FLOW_THOROUGH + CODEC}
 
 
+# Inductive invariants discharged by Apalache (unbounded in the integers): module -> obligations
+# (init predicate, invariant, length).  Results depend only on the module; cached by its hash.
+APALACHE = {"Quota.tla": [("Init", "IndInv", 0), ("IndInit", "IndInv", 1), ("IndInit", "Window", 0)]}
+APALACHE_FOR = {"C06": ["Quota.tla"], "C12": ["Quota.tla"], "C17": ["Quota.tla"]}
+
+
+def run_apalache(module, cache, timeout=900):
+    key = "apalache-%s-%s" % (module, spec_hash([module]))
+    cfile = os.path.join(cache, "mc", key + ".json")
+    if os.path.exists(cfile):
+        return json.load(open(cfile))
+    work = os.path.join(cache, "mc", "work-" + key)
+    shutil.rmtree(work, ignore_errors=True)
+    os.makedirs(work)
+    shutil.copy(os.path.join(SPEC, module), work)
+    res = {"module": module, "obligations": [], "ok": True, "error": None}
+    for init, inv, length in APALACHE[module]:
+        cmd = "timeout %d apalache-mc check --cinit=ConstInit --init=%s --inv=%s --length=%d %s" % (timeout, init, inv, length, module)
+        r = subprocess.run(cmd, shell=True, cwd=work, capture_output=True, text=True)
+        ok = "EXITCODE: OK" in r.stdout and "Checker reports no error" in r.stdout
+        res["obligations"].append({"init": init, "inv": inv, "length": length, "ok": ok})
+        if not ok:
+            res["ok"] = False
+            res["error"] = "%s: %s => %s (length %d) not discharged\n%s" % (module, init, inv, length, r.stdout[-1500:])
+    shutil.rmtree(work, ignore_errors=True)
+    if res["ok"]:
+        os.makedirs(os.path.dirname(cfile), exist_ok=True)
+        json.dump(res, open(cfile, "w"))
+    return res
+
+
 def spec_hash(files):
     h = hashlib.sha256()
     for f in files:
@@ -130,6 +161,11 @@ def run_for(prop, tier, cache, mach_h, jobs=12):
         if res["violated"]:
             out["tool_error"] = "%s: the specification itself violates %s (a modelling error or an unlisted deviation)\n%s" % (
                 res["cfg"], res["violated"], res["trace"][:1500])
+    for module in APALACHE_FOR.get(prop, []):
+        a = run_apalache(module, cache)
+        out["detail"]["apalache:" + module] = {"inductive_invariant": a["obligations"], "unbounded": True}
+        if not a["ok"]:
+            out["tool_error"] = "Apalache: " + (a["error"] or "")
     out["exhaustive"] = complete
     out["samples"] = [{"model": r["cfg"], "distinct_states": r["distinct"], "depth": r["depth"]} for r in results[:3]]
     return out
